@@ -386,9 +386,7 @@ def main(chk: Check, replay: dict | None = None) -> int:
     all_statuses = list(range(100, 600))
     for spec in specs:
         sts = all_statuses if chk.thorough else sorted(set(QUICK_STATUSES) | set(declared_statuses(spec)))
-        broken = any(c.isdigit() and not c.startswith("2") and not 400 <= int(c) < 600 for op in spec for c, _ in op)
-        if broken:  # the whole package is unimportable: a handful of statuses says it all
-            sts = sorted(set(rng.sample(sts, 6)) | {302, 404, 500})
+        broken = False  # (before the F06d fix a declared 1xx/3xx made the whole package unimportable)
         calls = [(o, k, st, "obj") for o in range(len(spec)) for k in ("bundled", "custom") for st in sts]
         if not broken:
             # statuses x every other body/Content-Type shape (the body must not influence the outcome)
@@ -419,7 +417,7 @@ def main(chk: Check, replay: dict | None = None) -> int:
     if chk.model_ok:
         codes = chk.coq_eval("From PG Require Import Lib.Strs Model.Dispatch Corr.C06.", "input * obs",
                              [c_case(c) for c in cases], "run", shard=1500 if chk.thorough else 1000)
-    chk.decide(cases, codes, {1: "F06a", 2: "F06b", 3: "F06c", 4: "F06d"},
+    chk.decide(cases, codes, {},
                "Corr.C06.run: call(model) = outcome of the generated client's method under MockTransport")
     # function-level: the three copies of _get_primary_response
     pc = primary_cases(rng, 6000 if chk.thorough else 1500)
